@@ -305,7 +305,12 @@ def c01_5(ctx):
         ctx.ob(R, "is_ephemeral:child-match", ok,
                "the parent's create_coin set must contain (this spend's puzzle hash, this spend's amount)", found=[show(c)[:240] for c in cont])
     is_ephemeral_exact(ctx, R)
-    # every entry point reaches validate_conditions (and signature validation) on every Ok path
+    entry_points_validate(ctx, R)
+
+
+def entry_points_validate(ctx, R):
+    """every entry point reaches validate_conditions (and signature validation) on every Ok path"""
+    fb = ctx.fb
     vc = "chia_consensus::conditions::validate_conditions"
     vs = "chia_consensus::conditions::validate_signature"
     for ep, need_sig in (("chia_consensus::conditions::parse_spends", True),
